@@ -193,7 +193,12 @@ def operand_kinds(M):
     X = M.X
     return [('var', lambda n: X.var(n)), ('call', lambda n: X.call('fn_' + n, [X.num(1)])),
             ('subscript', lambda n: X.sub('arr_' + n, X.var(n))), ('op', lambda n: X.binop('PLUS', X.var(n), X.var(n + "'"))),
-            ('notop', lambda n: X.unop('NOT', X.binop('LS', X.var(n), X.binop('PLUS', X.var(n), X.var(n + "'")))))]
+            ('notop', lambda n: X.unop('NOT', X.binop('LS', X.var(n), X.binop('PLUS', X.var(n), X.var(n + "'"))))),
+            # constants and operator sub-trees with a constant operand: shapes a peephole over the tree may look into
+            ('num', lambda n: X.num(3 if n == 'a' else 1)),
+            ('subc', lambda n: X.binop('MINUS', X.var(n), X.num(3 if n == 'a' else 1))),
+            ('addc', lambda n: X.binop('PLUS', X.var(n), X.num(3 if n == 'a' else 1))),
+            ('csub', lambda n: X.binop('MINUS', X.num(3 if n == 'a' else 1), X.var(n)))]
 
 
 def gen_binary(idx, op, lkind, rkind, reg='A'):
@@ -559,7 +564,9 @@ def rule_templates(rep, idx):
     from .c07 import D, DB, tree_vars, clone
     where = 'xcmp.hpp xcmp::CodeBuffer::ExprCodeGen::visitPost(BinaryOpExpr&)'
     for op in BINOPS:
-        for lk, rk in (('var', 'var'), ('var', 'op'), ('op', 'var'), ('op', 'op'), ('subscript', 'var')):
+        for lk, rk in (('var', 'var'), ('var', 'op'), ('op', 'var'), ('op', 'op'), ('subscript', 'var'),
+                       ('subc', 'num'), ('addc', 'num'), ('csub', 'num'), ('num', 'subc'), ('num', 'addc'), ('subc', 'var'), ('var', 'subc'),
+                       ('addc', 'subc'), ('var', 'num'), ('num', 'var')):
             if 'subscript' in (lk, rk):
                 continue
             key = '%s:%s,%s' % (op, lk, rk)
@@ -745,6 +752,7 @@ def run(rep, tier):
     from . import c07
     c07.rule_rewrite(_Rename(rep, {'R2': 'R9'}), idx)
     c07.rule_fold(_Rename(rep, {'R1': 'R10'}), idx)
+    c07.rule_fold_effects(_Rename(rep, {'R8': 'R13'}), idx)
 
 
 class _Rename:
